@@ -522,3 +522,12 @@ def gen_c08(run_seed):
             hist['meta']['attempt'] = attempt
             return hist
     raise RuntimeError('could not generate a valid history for seed %r' % run_seed)
+
+
+def gen_c08_indexed(run_seed, index, tier='quick'):
+    "The first sweep_size(tier) run indices are the systematic fault sweep, the rest seeded histories"
+    from . import gen_sweep
+    n = gen_sweep.sweep_size(tier)
+    if index < n:
+        return gen_sweep.gen_sweep(tier, index)
+    return gen_c08(run_seed)
